@@ -45,9 +45,17 @@ def validate_refsem():
     return good, bad
 
 
-def events_prefix_conds(layout, mt, rt, full):
-    """machine trace mt must be a prefix of (full: equal to) reference trace rt, events compared by content"""
+def events_prefix_conds(layout, mt, rt, full, upto=None):
+    """machine trace mt must be a prefix of (full: equal to) reference trace rt, events compared by content.
+    upto = number of bytes the reference had consumed when the run stopped (end of input / error): only the events the reference stamps at
+    that very position are pending and may be missing on the machine side; an event stamped at an earlier position lies before a byte the
+    machine has finished processing and must have been performed (DESIGN C01 slack (a)/(b))."""
     conds = []
+    if upto is not None and isinstance(upto, int):
+        need = sum(1 for e in rt if len(e) > 2 and isinstance(e[2], int) and e[2] < upto)
+        if len(mt) < need:
+            conds.append((f'events: machine performed {[e[:2] for e in mt]} but the reference had performed {[e[:3] for e in rt[:need]]} before the last byte', z3.BoolVal(False)))
+            return conds
     if len(mt) > len(rt) or (full and len(mt) != len(rt)):
         conds.append((f'events: machine {[e[:2] for e in mt]} vs reference {[e[:2] for e in rt]}', z3.BoolVal(False)))
         return conds
@@ -76,10 +84,10 @@ def pair_conds(layout, ref, mach, nlen_is):
     if ref.code == 'INCOMPLETE':
         want = 'FAIL' if at_end else 'INCOMPLETE'      # end of input in the middle (e.g. during a wait): end() reports FAIL
         conds = [(f'outcome (reference INCOMPLETE, machine {mcode})', z3.BoolVal(mcode == want))]
-        return conds + events_prefix_conds(layout, mt, rt, False)
+        return conds + events_prefix_conds(layout, mt, rt, False, upto=ref.pos)
     if ref.code == 'FAIL':
         conds = [(f'outcome (reference FAIL, machine {mcode})', z3.BoolVal(mcode == 'FAIL'))]
-        return conds + events_prefix_conds(layout, mt, rt, False)
+        return conds + events_prefix_conds(layout, mt, rt, False, upto=ref.pos)
     # DONE / FINISH_x
     if mcode == ref.code:
         conds = events_prefix_conds(layout, mt, rt, True)
@@ -254,7 +262,7 @@ def main(tier, replay_path):
     run.assumptions = ['slack exactly as DESIGN §4 C01: pending events at end of input / when an error strikes may be missing on the machine side (prefix); a trailing byte nothing accepts may be FAIL on the machine side',
                        '$last compared only through the values it produces', 'foreach do-actions run before the per-byte append (generator keeps the order unobservable)', 'arithmetic UB and reads beyond the string length excluded', 'runs in which a computed-character append (s += [expr]) runs out of space are excluded: which byte the handler then sees depends on whether the action is scheduled with the byte before or after it, which the language leaves open (the C-level behaviour of such overflows is compared by C06/C02/C10)']
     jobs = []
-    for label, src in l3check.programs(tier):
+    for label, src in l3check.programs(tier, kinds=('example', 'ok', 'verif')):
         big = len(src) > 2500
         jobs.append({'label': label, 'src': src, 'K': (2 if big else K) if tier == 'quick' else (3 if big else K), 'max_paths': 4000 if tier == 'quick' else 20000})
     for i, src in enumerate(gen_c01.programs(chk.seed(), 40 if tier == 'quick' else 500)):
